@@ -207,6 +207,8 @@ def c28RefVerdicts (pre : Server) (ws : List String) (core : String) : List Stri
         let pks := (io.conns.find? (·.1 == n)).map (·.2) |>.getD []
         let gotAck := pks.any fun p => p.startsWith s!"PUBACK:id{id}:"
         let gotMsg := pks.any fun p => p.startsWith "PUB:" && fieldOf p "p=" == some (toHex payload)
+        -- the copy travels at the highest QoS among ALL of the client's matching subscriptions
+        let subQ := ((matchingEntries pre topic).filter fun (cid, _, _) => cid == c.id).foldl (fun m (_, sb, _) => max m sb.qos) subQ
         let flow := subQ > 0 && (c.maxSend > 0 || pre.caps.maximumInflight < 8192 || pre.caps.maximumPacketID < 65535)
         (if gotAck then [] else [fail "C28" "-" s!"reference client on c{n} did not get its PUBACK {id}"]) ++
         (if gotMsg || flow then [] else [fail "C28" "-" s!"reference client on c{n} did not get its own message back"])
